@@ -81,7 +81,7 @@ def match(pat, node, b):
     if _is_meta(pat):
         k = pat.id
         if k in b:
-            return ast.dump(b[k]) == ast.dump(node)
+            return ast.unparse(b[k]) == ast.unparse(node)      # same expression (Load / Store context ignored)
         b[k] = node
         return True
     if isinstance(pat, ast.Expr) and _is_meta(pat.value) and pat.value.id.startswith("M_STMT"):
@@ -162,6 +162,11 @@ class ExprC:
             if key == "np.pi" and self.mode == "R":
                 return "PI"
             self.rej(n, "unknown attribute")
+        if isinstance(n, ast.Subscript):
+            key = ast.unparse(n)
+            if key in self.env:
+                return self.env[key]
+            self.rej(n, "unknown subscript")
         if isinstance(n, ast.UnaryOp):
             if isinstance(n.op, ast.USub):
                 return f"(- {self.c(n.operand)})"
